@@ -127,12 +127,21 @@ fn grid_queries2() -> Vec<Point2> {
 fn judge_poisson(case: &Case, l: &mut Local) {
     let mk = || serde_json::to_value(case).unwrap();
     let lat = gen::lattice2(3);
-    let base: Vec<Point2> = [0usize, 1, 3, 4, 5, 8].iter().map(|i| gen::p2(lat[*i], 1.0)).collect();
+    let distinct: Vec<Point2> = [0usize, 1, 3, 4, 5, 8].iter().map(|i| gen::p2(lat[*i], 1.0)).collect();
+    // the same six indices over a set in which two locations are present twice (exact duplicates)
+    let doubled: Vec<Point2> = [0usize, 1, 3, 4, 0, 1].iter().map(|i| gen::p2(lat[*i], 1.0)).collect();
+    for base in [distinct, doubled] {
+        judge_poisson_on(case, &base, l);
+    }
+}
+
+fn judge_poisson_on(case: &Case, base: &[Point2], l: &mut Local) {
+    let mk = || serde_json::to_value(case).unwrap();
     let order = &case.idx;
     let rad = case.param;
     l.eval();
     l.bucket("poisson-disk ordering");
-    let keep = match guarded(|| sample_poisson_disk(&base, order, rad)) {
+    let keep = match guarded(|| sample_poisson_disk(base, order, rad)) {
         Ok(k) => k,
         Err(e) => {
             l.check("poisson-disk selection returns", "panic", false, mk, || e.clone());
